@@ -37,6 +37,26 @@ CHECKS = {
    "Base DN, attribute list, scope, filter and extension list are generated (incl. ? , = % # / spaces, non-ASCII), formatted with mandatory and random optional percent-encoding and parsed back; defaults for omitted components and the three documented error classes are checked.",
    "Trusted base: harness RFC 4516 writer; url::Url (the documented argument type). Attribute selectors are not percent-encoded (borrowed &str by design).",
    "DESIGN.md §3 C20", "harness"),
+ "C01": ("exploration",
+   "property-based testing (proptest) of generated concurrent histories on a deterministic simulated connection (scripted transport, paused-clock runtime with seeded select! order); token-tracing oracle",
+   "1-12 operations on 1-4 cloned handles, a generated global merge order of all response PDUs, unsolicited/late PDUs, read segmentation and scheduler seed; every operation must observe exactly the tokens the server sent under its own wire id, in order, and nobody may see an unsolicited token.",
+   "Trusted base: harness SIM (src/sim.rs), response model, tokio paused clock and RngSeed. Schedules are sampled, not enumerated.",
+   "DESIGN.md §3 C01, §2.2", "harness"),
+ "C02": ("exploration",
+   "property-based testing (proptest) of generated operation histories with per-operation modifiers; the client->server byte log is decoded by an independent strict RFC 4511 decoder and compared with a request model built from the call arguments",
+   "Whole Ldap surface with arbitrary arguments (incl. empty/large/binary), modifiers before every kind of op including locally failing ones; exactly one well-formed message per issued op with the right fields, id and controls; leaked timeouts exposed by delayed answers on the virtual clock.",
+   "Trusted base: harness strict request decoder (src/model.rs), SIM. Limits/ids within 0..maxInt.",
+   "DESIGN.md §3 C02", "harness"),
+ "C03": ("exploration",
+   "property-based testing (proptest): model-built responses encoded by an independent BER writer with generated length forms; decoded directly (decoder hook + LdapResult::from) and end-to-end through real operation futures on the simulated connection; helper truth table",
+   "All 8 result-bearing response types with arbitrary codes/strings/referrals/controls/extended fields; every field delivered must equal the model; success()/non_error()/equal() helpers checked against the documented codes on every generated code.",
+   "Trusted base: harness BER writer and response model. Only legal BER is generated.",
+   "DESIGN.md §3 C03", "harness"),
+ "C06": ("exploration",
+   "property-based testing (proptest) with exhaustive sub-spaces: generated message streams fed to the frame decoder under generated partitions, every 2-chunk split and every prefix of short streams; end-to-end lane through the scripted transport with generated read sizes",
+   "Delivered (id, op, controls) sequence must equal the model for every partition; no message before its last byte; after each delivery exactly the following bytes remain. Exhaustive over all split points for streams <= 600 bytes.",
+   "Trusted base: harness BER writer; Framed's append-then-decode contract emulated in the decoder lane, real Framed in the e2e lane.",
+   "DESIGN.md §3 C06", "harness"),
 }
 
 NOT_YET = {}
